@@ -13,19 +13,24 @@ from vlib.model import Alias, Arr, Base, Const, Enum, Field, File, Message, Ref,
 from vlib.monitors import contracts
 from vlib.sut_c import c_type_name
 from props import pycommon
+from props.gocommon import names_of_transitive_imports
 
 CC = ["gcc", "-std=c99", "-Wall", "-Werror=implicit-function-declaration", "-Wno-unused", "-c"]
 
 
 def cfg_for(rng, k):
     c = GenCfg(msg_bits=400, max_fields=6, n_top=(2, 7), max_depth=4, p_nested=0.55, p_empty_msg=0.12, allow_empty_enum=True, empty_enum_fields=True)
-    c.n_imports = [(0, 0), (1, 1), (1, 2), (2, 2)][k % 4]
+    c.n_imports = [(0, 0), (1, 1), (1, 2), (2, 2), (2, 3)][k % 5]
     c.basename_differs = 0.5
     c.name_prefix = 0.3
     c.packing = 0.3
     c.digit_names = 0.3
+    c.digit_fields = 0.3
     c.keyword_field = 0.15
     c.module_options = 0.15
+    c.p_import_chain = 0.5
+    c.p_transitive_ref = 0.5
+    c.p_shared_as_name = 0.4
     c.extensible = k % 3 != 0
     return c
 
@@ -112,6 +117,22 @@ def imports_used_only_for_constants(g: File):
             for f in d.fields:
                 ty(f.type)
     return {imp.bound_name for imp in g.imports if id(imp.file) not in used_files}
+
+
+GO_MESSAGE_WORDS = set("""line import declaration after other declarations redeclared in this block imported twice already declared through of
+package method at receiver type is not file field and with the same name as a undefined invalid array length duplicate previous refers to an
+unexported argument no new variables on left side multiple defaults switch case cannot use value without selector has or used""".split())
+
+
+def go_problem_key(p: str) -> str:
+    """Mechanism key of a static-check message: its wording with every identifier, literal and number masked."""
+    toks = re.findall(r"\"[^\"]*\"|[A-Za-z_][\w.]*|\d+|[^\sA-Za-z_\d\"]+", p)
+    out = []
+    for t in toks:
+        w = t if t in GO_MESSAGE_WORDS else ("#" if re.match(r"[\w\"]", t) else t)
+        if not (w == "#" and out and out[-1] == "#"):
+            out.append(w)
+    return "go-static:" + " ".join(out)[:70]
 
 
 def sh(cmd, cwd=None, timeout=300):
@@ -358,11 +379,14 @@ def worker(ctx):
                     problems = G.static_check(parsed[g.basename], imported)
                     res.count("go_files_checked")
                     const_only = imports_used_only_for_constants(g)
+                    transitive = names_of_transitive_imports(g)
                     for p in problems:
-                        key = "go-static:" + re.sub(r"[\"'`][^\"'`]*[\"'`]|\d+", "#", p)[:50]
-                        m = re.search(r"import\s+\W*(\w+)\W.*(not used|unused)|unused import\W+(\w+)", p)
+                        key = go_problem_key(p)
                         if ("unused" in p or "not used" in p) and any(re.search(r"\b%s\b" % re.escape(n), p) for n in const_only):
                             key = "go-unused-import-constants-only"
+                        m = re.search(r"undefined: (\w+) \(in (\w+)\.|undefined: (\w+)\.\w+$", p)
+                        if m and (m.group(1) or m.group(3)) in transitive:
+                            key = "go-transitive-import-reference"
                         res.violation(key, f"{g.basename}_bp.go ({mode}): {p}", {**wit, "mode": mode, "problem": p})
         finally:
             shutil.rmtree(top, ignore_errors=True)
